@@ -27,7 +27,8 @@ Section Closure2.
     c_set_lst : forall l, P (set_lst l) (set_lst l);
     c_assert_done : forall i, P (assert_done true i) (assert_done false i);
     c_catch : forall A ids (m1 m2 h1 h2 : M A), P m1 m2 -> P h1 h2 ->
-              P (catch_exceeded true ids m1 h1) (catch_exceeded false ids m2 h2) }.
+              P (catch_exceeded true ids m1 h1) (catch_exceeded false ids m2 h2);
+    c_problem : forall e, P (@fail unit e) (emit (Wn e)) }.
 
   Hypothesis C : closed2.
 
@@ -220,7 +221,8 @@ Section Closure2.
     destruct sessions; [|apply P_rsp_finish].
     apply P_try_field; [apply P_dec_sized_array; intros p; apply P_dec_ty|apply (c_ret C)|]. intros area.
     destruct (is_param_enc _ _ area) as [e|]; [|apply (c_internal C)].
-    destruct (Bool.eqb e enc); [apply P_rsp_finish|apply (c_internal C)].
+    apply (c_bind C); [|intros _; apply P_rsp_finish].
+    destruct (Bool.eqb e enc); [apply (c_ret C)|apply (c_problem C)].
   Qed.
 
   Lemma P_dec_response pa cc enc : P (dec_response T true pa cc enc) (dec_response T false pa cc enc).
